@@ -66,6 +66,9 @@ def run():
             if step_.startswith(".fmap"):
                 continue          # fmap is the Either's own method: no plain counterpart
             extra.append(("g := {|xs| [xs, xs.len]}\n", recv_, step_))
+    # a receiver that is an OBJECT with a `call` property (callable by duck typing): its other properties are steps like any other
+    for step_ in (".describe", ".fail(0)", ".fail(2)", ".{|s| s.describe}", ".describe.len", ".fail(2).{|q| q * 2}", ".call(5)"):
+        extra.append(("succ := {call: m{|x| x + 1}, describe: m{\"callable\"}, fail: m{|d| 10 / d}}\n", "succ", step_))
     for j, (pre, recv, step) in enumerate(extra):
         reqs.append({"id": f"xw{j}", "src": pre + f"say({recv}.try{step}.A)"})
         reqs.append({"id": f"xp{j}", "src": pre + f"say([{recv}{step}, nil])"})
@@ -141,7 +144,7 @@ def run():
             kind, msg = b["end"].split(":", 2)[1:]
             same = a["events"] == b["events"] + [f"out:[nil, <err {kind}: {msg}>]"] and a["end"].startswith("val:")
         if not same:
-            ck.reject(("C13:recv=callable" if step.startswith(".call") else "C13:recv=callable:literal-step") if recv == "f" else "C13:recv=array:one-parameter-step",
+            ck.reject(("C13:recv=callable" if step.startswith(".call") else "C13:recv=callable:literal-step") if recv == "f" else "C13:recv=callable-object" if recv == "succ" else "C13:recv=array:one-parameter-step",
                       f"{recv}.try{step}.A gives {a['events']} {a['end']} but the plain call gives {b['events']} {b['end']}",
                       {"wrapped": a, "plain": b})
     ck.sample({"chain": "".join(STEP[s] for s in cases[-1]["chain"]), "wrapped_events": out[f"w{len(cases) - 1}"]["events"][:6], "plain": out[f"p{len(cases) - 1}"]["end"]})
